@@ -81,13 +81,13 @@ Eval(e) ==
 
 Tick(e) ==
     /\ why' = why \cup Fails(<< <<Cfg.mode = "file" \/ Cfg.rate_mode = FALSE \/ Cfg.pool_only \/ e.a = pendingV, "C09", "published-value-differs-from-evaluation">>,
-                                 <<e.a >= 0, "C09", "negative-request">>,
                                  \* a published tick proves the context was not done before: every earlier evaluation had to be published
                                  <<Cfg.pool_only \/ Cfg.mode = "file" \/ skipped = 0, "C09", "evaluation-not-passed-to-the-pool">>,
                                  \* cancel() had returned 100 ms before this publication: its context check cannot have passed
                                  <<cancelT < 0 \/ Cfg.pool_only \/ e.c <= cancelT + 100000, "C05", "request-published-after-cancellation">> >>)
-    /\ IF stopSeen THEN lateSum' = lateSum + e.a /\ Unch(sumTicks)
-                   ELSE sumTicks' = sumTicks + e.a /\ Unch(lateSum)
+    \* a negative value (a profile below zero) is passed on unchanged and requests nothing
+    /\ IF stopSeen THEN lateSum' = lateSum + (IF e.a > 0 THEN e.a ELSE 0) /\ Unch(sumTicks)
+                   ELSE sumTicks' = sumTicks + (IF e.a > 0 THEN e.a ELSE 0) /\ Unch(lateSum)
     /\ pendingV' = -1
     /\ Unch(<<lmax, skipped, setupSeen, ids, liveIds, liveH, endedIds, cleaned, succT, failT, dropSum, stopSeen, limitSeen, evals,
               firstEvalT, progS, progF, cancelT, timeoutSeen, retSeen, ret, mS, mF, mD, mSetup, mSetupRes, labelsBad,
@@ -262,6 +262,10 @@ Return(e) ==
                   "C02", "request-neither-started-nor-dropped">>,
             <<~(Cfg.rate_mode /\ Cfg.mode # "file") \/ n + dropSum <= sumTicks + lateSum, "C02", "more-started-plus-dropped-than-requested">>,
             <<(setupSeen = 1) \/ n = 0, "C06", "iterations-after-failed-setup">>,
+            \* a file plan that was neither cancelled, nor cut short by max-duration or a limit, nor stopped by a failed
+            \* setup has executed every one of its stages
+            <<Cfg.mode # "file" \/ cancelT >= 0 \/ Cfg.maxiter > 0 \/ setupSeen # 1 \/ Cfg.trigdur_us > Cfg.maxdur_us
+                  \/ Cfg.file_stages = 0 \/ stageCur = Cfg.file_stages, "C15", "not-every-stage-of-the-plan-was-executed">>,
             <<~Cfg.setup_fail \/ e.s # "", "C06", "failed-setup-did-not-fail-the-run">>,
             <<Cfg.pool_only \/ setupCleanupSeen, "C06", "setup-cleanup-missing-at-return">>,
             <<Cfg.light \/ ~complete \/ cleaned = ids, "C06", "iteration-cleanup-missing-at-return">>,
